@@ -125,6 +125,14 @@ class BoundMethod(Value):
         return f"BoundMethod({getattr(self.func, '__qualname__', self.func)}, {self.self_obj!r})"
 
 
+class HostModel(Value):
+    """A model implemented in the verifier: called as f(interp, self_obj, args, kwargs) when used as the function
+    of a BoundMethod."""
+
+    def __init__(self, f):
+        self.f = f
+
+
 class GenObj(Value):
     """An un-started generator of an interpreted generator function."""
 
@@ -189,6 +197,48 @@ class LoopSpec:
         self.inv = inv
         self.variant = variant
         self.name = name
+
+
+class AppendLoop:
+    """Generic-iteration rule for a loop whose only loop-carried state is a list it appends to:
+
+        for x in seq: <body that only calls LIST.append(...)>
+
+    The body is executed once for a generic index k (0 <= k < len(seq)); what it appends is recorded as a
+    `Family` (items as a function of k).  Side condition, checked by the executor: inside the body the list is
+    used through `.append` only (any other use is outside the subset).  The loop then denotes the concatenation,
+    in order of k, of the per-iteration items."""
+
+    def __init__(self, quote, listvar, name=None):
+        self.quote = quote
+        self.listvar = listvar
+        self.name = name
+
+
+class Family(Value):
+    """Items appended by the iterations k = 0 .. count-1 of a summarised loop, in order."""
+
+    def __init__(self, index, count, items, name):
+        self.index = index
+        self.count = count
+        self.items = items
+        self.name = name
+
+    def __repr__(self):
+        return f"Family({self.name}: {self.index} < {self.count}, {self.items!r})"
+
+
+class _Tracker(Value):
+    """Stand-in for the list during the generic iteration: append-only."""
+
+    def __init__(self, name):
+        self.items = []
+        self.name = name
+
+    def getattr_model(self, interp, name):
+        if name == "append":
+            return BoundMethod(HostModel(lambda interp_, self_obj, args, kwargs: self_obj.items.append(args[0])), self)
+        raise OutsideSubset(f"generic-iteration rule: the loop-carried list {self.name} is used through .{name} (only .append is allowed)")
 
 
 HOST_NATIVE_MODULES = ("builtins", "numpy", "math", "os.path", "posixpath", "fnmatch", "operator", "itertools", "functools", "collections", "re", "shlex", "json", "copy", "numbers", "genericpath")
@@ -809,7 +859,48 @@ class Interp:
                 continue
         self.exec_block(st.orelse, frame)
 
+    def _append_loop(self, st, frame, spec: AppendLoop, seq):
+        ctx = self.ctx
+        header = ast.unparse(st.iter)
+        name = spec.name or f"loop{self._loop_key(st, frame)[1]}"
+        if spec.quote not in header:
+            ctx.ledger.record(f"{frame.name}::{name}.anchor", "anchor", "unknown", "eval", 0.0, detail=f"contract-anchor-moved: expected '{spec.quote}' in '{header}'")
+            raise OutsideSubset("contract-anchor-moved")
+        if st.orelse:
+            raise OutsideSubset("generic-iteration rule: loop with else clause")
+        lst = frame.locals[spec.listvar]
+        if not isinstance(lst, (list, _Tracker)):
+            raise OutsideSubset("generic-iteration rule: the list is not a plain list at loop entry")
+        ctx.ledger.record(f"{frame.name}::{name}.append-only", "frame", "discharged", "executor", 0.0)
+        if not ctx.branch(seq.n > 0):
+            return
+        k = ctx.fresh_int(f"{name}.k")
+        ctx.assume(z3.And(k >= 0, k < seq.n))
+        tracker = _Tracker(spec.listvar)
+        frame.locals[spec.listvar] = tracker
+        try:
+            self.assign(st.target, seq.at(k), frame)
+            try:
+                self.exec_block(st.body, frame)
+            except ContinueSig:
+                pass
+            except BreakSig:
+                raise OutsideSubset("generic-iteration rule: break in a summarised loop") from None
+        except OutsideSubset as exc:
+            if "only .append is allowed" in str(exc):
+                ctx.ledger.record(f"{frame.name}::{name}.append-only", "frame", "unknown", "executor", 0.0, detail=str(exc))
+            raise
+        finally:
+            frame.locals[spec.listvar] = lst
+        fam = Family(k, seq.n, tracker.items, name)
+        if isinstance(lst, _Tracker):
+            lst.items.append(fam)
+        else:
+            lst.append(fam)
+
     def _loop_rule(self, st, frame, spec: LoopSpec, seq):
+        if isinstance(spec, AppendLoop):
+            return self._append_loop(st, frame, spec, seq)
         ctx = self.ctx
         header = ast.unparse(st.iter if isinstance(st, ast.For) else st.test)
         name = spec.name or f"loop{self._loop_key(st, frame)[1]}"
